@@ -65,7 +65,7 @@ let prop_lines = List.map (fun s -> bytes_of_hex s)
 (* why a case of this kind can go wrong (names the call site in the finding key) *)
 let site_of (c : string) : string =
   match split_blank c with
-  | ("ammo" | "pfx") :: fmt :: file :: _ ->
+  | ("ammo" | "pfx" | "trunc") :: fmt :: file :: _ ->
       (match fmt with
        | "uripost" | "raw" -> "size-field-used-as-allocation-length"
        | "json" -> "jsonline-decoder"
@@ -87,33 +87,38 @@ let rec predict_inner (c : string) (obs : string) : string * string * bool =
   | ["ammo"; fmt; file] ->
       let (p, _) = decode_bytes fmt (bytes_of_hex file) in
       safe p
-  | "pfx" :: fmt :: file :: ngood :: toks ->
+  | (("pfx" | "trunc") as kind) :: fmt :: file :: ngood :: toks ->
+      let toks = List.filter (fun t -> t <> "") toks in
       let fileb = bytes_of_hex file in
       let (p, _) = decode_bytes fmt fileb in
-      let toks = List.map parse_tok toks in
       let ng = int_of_string ngood in
       let good = List.filteri (fun i _ -> i < ng) fileb in
-      (* the specification of the well-formed prefix *)
+      (* the specification of the well-formed prefix, computed from the items only *)
       let (rendered, want) =
         (match fmt with
          | "uri" ->
              let items = List.map (function
                | TH (k, v, l, (kl, kt, vl, vt)) -> (UHeader (kl, k, kt, vl, v, vt), lay_of l)
                | TR (u, t, l, _) -> (UReq (u, t), lay_of l)
-               | TB l -> (UBlank, lay_of l)) toks in
+               | TB l -> (UBlank, lay_of l)) (List.map parse_tok toks) in
              (render_uri items true, List.filter_map bld_entry (uri_entries (List.map fst items) []))
          | "uripost" ->
              let items = List.map (function
                | TH (k, v, l, (kl, kt, vl, vt)) -> (PHeader (kl, k, kt, vl, v, vt), lay_of l)
                | TR (u, t, l, b) -> (PReq (u, t, b), lay_of l)
-               | TB l -> (PBlank, lay_of l)) toks in
+               | TB l -> (PBlank, lay_of l)) (List.map parse_tok toks) in
              (render_uripost items true, List.filter_map bld_entry (uripost_entries (List.map fst items) []))
-         | _ ->
+         | "raw" ->
              let items = List.map (function
                | TR (_, t, l, b) -> (RReq (t, b), lay_of l)
                | TB l -> (RBlank, lay_of l)
-               | TH _ -> failwith "header line in raw case") toks in
-             (render_raw items true, List.filter_map bld_raw (raw_entries (List.map fst items)))) in
+               | TH _ -> failwith "header line in raw case") (List.map parse_tok toks) in
+             (render_raw items true, List.filter_map bld_raw (raw_entries (List.map fst items)))
+         | _ ->
+             (* json, one object per line: the text of the good part is the oracle's business *)
+             let ents = List.map parse_entity toks in
+             let es = List.filter_map (fun d -> match entity_entry url_parse d with Inl e -> Some e | Inr _ -> None) ents in
+             (good, List.filter_map bld_entry es)) in
       if rendered <> good then ("render-mismatch", "BAD:render-mismatch", false)
       else begin
         let want = List.filteri (fun i _ -> i < k_acq) want in
@@ -122,9 +127,14 @@ let rec predict_inner (c : string) (obs : string) : string * string * bool =
           | [], _ -> true
           | x :: a', y :: b' -> x = y && is_prefix a' b'
           | _ -> false in
+        let st = status_of obs in
         let v =
-          if bad_status (status_of obs) then "BAD:" ^ site_of c ^ " outcome " ^ status_of obs
+          if bad_status st then "BAD:" ^ site_of c ^ " outcome " ^ st
           else if not (is_prefix want got) then "BAD:prefix-altered expected " ^ String.concat " " want
+          else if kind = "trunc" && not (got = want && (st = "err" || st = "newerr")) then
+            (* a truncated entry must be rejected with an error, after the entries before it *)
+            "BAD:truncated-entry-not-rejected outcome " ^ st ^ " after " ^ string_of_int (List.length got)
+            ^ " deliveries (expected " ^ string_of_int (List.length want) ^ " then an error)"
           else "ok" in
         (p, v, true)
       end
